@@ -784,28 +784,23 @@ static void check_order(trial_t *t)
 			 * invocation cannot come from that mechanism and is reported under the plain key. */
 			/* (with an interval set every operation also owns a timer source whose cancellation must finish
 			 * before the dispose, which delays the done invocation in the same way) */
-			int pending = (a->ninv >= 2 || t->interval) && a->err_done == 0 && b->err_done == 0;
-			/* same mechanism when the descriptor fails (e.g. EPIPE after the reader went away): the stream fails the
-			 * queued operations one after the other, each done is still posted from the operation's dispose, after
-			 * its pending progress deliveries / interval timer; keyed separately */
-			int pending_failed = (a->ninv >= 2 || t->interval) && a->err_done != 0 && a->err_done == b->err_done;
-			/* and when only the later operation fails (the peer goes away after the earlier one's bytes were taken): its done
-			 * overtakes the earlier operation's, which still has progress deliveries queued */
-			int pending_later_failed = (a->ninv >= 2 || t->interval) && a->err_done == 0 && b->err_done != 0 && b->err_done != ECANCELED;
-			/* convenience API: the descriptor's registration does not outlive its operations. When the first call's I/O is finished
-			 * before the second call is looked up, the second gets a fresh registration, while the first's handler still waits for
-			 * the cancellation of its event source on the old one's close queue (it needed the source: pipe full). Both succeed,
-			 * bytes in order, handlers swapped. Known (K8), keyed separately. */
-			int conv_regen = a->conv && b->conv && a->err_done == 0 && b->err_done == 0 && !zero;
-			/* the same when the peer has gone away: the first call fails (EPIPE) after moving some bytes, its registration is
-			 * being torn down, the second call fails at once on a fresh one */
-			int conv_regen_failed = a->conv && b->conv && a->err_done != 0 && a->err_done == b->err_done && a->err_done != ECANCELED && !zero;
-			snprintf(k, sizeof(k), zero ? "C14:%s:zero-length-op-completes-out-of-order" : canc ? "C14:%s:ops-complete-out-of-order:cancelled-by-stop" :
-					conv_regen ? "C14:%s:ops-complete-out-of-order:convenience-api:both-succeeded" :
-					conv_regen_failed ? "C14:%s:ops-complete-out-of-order:convenience-api:both-failed-alike" :
-					pending ? "C14:%s:ops-complete-out-of-order:earlier-op-still-delivering" :
-					pending_failed ? "C14:%s:ops-complete-out-of-order:earlier-op-still-delivering:both-failed-alike" :
-					pending_later_failed ? "C14:%s:ops-complete-out-of-order:earlier-op-still-delivering:later-op-failed" : "C14:%s:ops-complete-out-of-order", dn);
+			/* Two mechanisms are known to invert completion notifications although the I/O itself was performed in order; each
+			 * has an observable precondition, and the key names mechanism + outcome, so that an inversion without either
+			 * precondition is still reported under the plain key:
+			 *  - earlier-op-still-delivering (K6/K7): the earlier operation received progress deliveries (>= 2 invocations) or
+			 *    the channel has an interval timer; its done is posted from its dispose, behind those;
+			 *  - convenience-api (K8): both operations went through dispatch_read / dispatch_write; the descriptor's registration
+			 *    does not outlive its operations, the second call can get a fresh one while the first's handler still waits for the
+			 *    cancellation of its event source on the old one's close queue. */
+			int pending = (a->ninv >= 2 || t->interval) && !a->conv;
+			int conv_regen = a->conv && b->conv;
+			const char *outcome = (a->err_done == 0 && b->err_done == 0) ? "" : a->err_done == 0 ? ":later-op-failed" : b->err_done == 0 ? ":earlier-op-failed" :
+					a->err_done == b->err_done ? ":both-failed-alike" : ":both-failed-differently";
+			if (zero) snprintf(k, sizeof(k), "C14:%s:zero-length-op-completes-out-of-order", dn);
+			else if (canc) snprintf(k, sizeof(k), "C14:%s:ops-complete-out-of-order:cancelled-by-stop", dn);
+			else if (conv_regen) snprintf(k, sizeof(k), "C14:%s:ops-complete-out-of-order:convenience-api%s", dn, *outcome ? outcome : ":both-succeeded");
+			else if (pending) snprintf(k, sizeof(k), "C14:%s:ops-complete-out-of-order:earlier-op-still-delivering%s", dn, outcome);
+			else snprintf(k, sizeof(k), "C14:%s:ops-complete-out-of-order", dn);
 			VIOL(t, k, "stream channel, serial handler queue: %s was submitted before %s, but the later operation's done invocation returned before the earlier one's began", ba, bb);
 			return;
 		}
